@@ -97,6 +97,10 @@ structure G where
   e : Int
   /-- ghost: number of StopTimeoutClock calls before this call began -/
   s0 : Nat
+  /-- ghost: real time (ns) at which the deadline was *made*: the time of the step that computed the
+      current value of `e` (the lock-free read of `current`, or the locked section).  `t0 ≤ tMade`; the
+      two differ by however long the goroutine was descheduled between the call and that step. -/
+  tMade : Int
   deriving DecidableEq, Repr
 
 structure CState where
@@ -117,28 +121,29 @@ def stepG (v : Variant) (p : Params) (s : State) (g : G) : Option (State × G) :
   | .new, .start => some (s, { g with pc := .gotFirst, ce := s.clockEnd })
   | .new, .gotFirst =>
     let e := s.current + D
-    some (s, { g with e := e, pc := if e > g.ce then .needLock else .done })
+    some (s, { g with e := e, tMade := s.now, pc := if e > g.ce then .needLock else .done })
   | .new, .needLock =>
     let s1 := refresh s
     let e := s1.current + D
-    some (extendClock p s1 e, { g with e := e, pc := .done })
+    some (extendClock p s1 e, { g with e := e, tMade := s.now, pc := .done })
   | .new, .needExtend => none
   -- 648a49f: the same, extendClock in a second section
   | .split, .start => some (s, { g with pc := .gotFirst, ce := s.clockEnd })
   | .split, .gotFirst =>
     let e := s.current + D
-    some (s, { g with e := e, pc := if e > g.ce then .needLock else .done })
+    some (s, { g with e := e, tMade := s.now, pc := if e > g.ce then .needLock else .done })
   | .split, .needLock =>
     let s1 := refresh s
-    some (s1, { g with e := s1.current + D, pc := .needExtend })
+    some (s1, { g with e := s1.current + D, tMade := s.now, pc := .needExtend })
   | .split, .needExtend => some (extendClock p s g.e, { g with pc := .done })
   -- before 648a49f: current, clockEnd, recompute only after an own refresh, two sections
-  | .old, .start => some (s, { g with pc := .gotFirst, e := s.current + D })
+  | .old, .start => some (s, { g with pc := .gotFirst, e := s.current + D, tMade := s.now })
   | .old, .gotFirst =>
     some (s, { g with ce := s.clockEnd, pc := if g.e > s.clockEnd then .needLock else .done })
   | .old, .needLock =>
     let s1 := refresh s
-    some (s1, { g with e := if !s.running && s.started then s1.current + D else g.e, pc := .needExtend })
+    some (s1, { g with e := if !s.running && s.started then s1.current + D else g.e,
+                       tMade := if !s.running && s.started then s.now else g.tMade, pc := .needExtend })
   | .old, .needExtend => some (extendClock p s g.e, { g with pc := .done })
 
 inductive Event where
@@ -157,7 +162,7 @@ inductive Event where
   deriving Repr
 
 def newG (s : CState) (d : Int) : G :=
-  { t0 := s.clk.now, d := d, pc := .start, ce := 0, e := 0, s0 := s.stops }
+  { t0 := s.clk.now, d := d, pc := .start, ce := 0, e := 0, s0 := s.stops, tMade := s.clk.now }
 
 /-- enabledness + effect.  New goroutines are appended, so indices of the others do not move
     (until a `retire`).  tick/idle/stop are the events of `Clock.step`. -/
@@ -201,5 +206,91 @@ inductive Reachable (v : Variant) (p : Params) : CState → Prop where
     goroutine (its index is the number of goroutines before) -/
 def soloEvents (s : CState) (d : Int) (n : Nat) : List Event :=
   .begin d :: List.replicate n (.stepG s.gs.length)
+
+/-! ### deterministic simulation used by leg I (forced interleavings on the real clock)
+
+The harness drives real `makeDeadline` calls from schedule point to schedule point and measures the
+real time of every step; the wake-ups of the updater in between are not observed.  As in
+`Clock.simulate` (leg H) the model lets the updater tick on the ideal schedule (exactly every
+`period`, eps = 0: `Clock.advanceTo`) up to the time of each observed step and then executes that step
+with `ClockConc.step` - the simulation is built from the functions the theorems are about. -/
+
+/-- the schedule point a goroutine stands at: 0 = called, 1 = after the `clockEnd` read, 2 = after the
+    `current` read and about to take the mutex, 3 = between the two sections (old/split), 4 = returned -/
+def PC.code : PC → Nat
+  | .start => 0
+  | .gotFirst => 1
+  | .needLock => 2
+  | .needExtend => 3
+  | .done => 4
+
+inductive SimEv where
+  /-- goroutine `id` calls makeDeadline(d) at real time `t` -/
+  | begin (id : Nat) (d t : Int)
+  /-- goroutine `id` was observed at its next schedule point (or returning) at real time `t` -/
+  | step (id : Nat) (t : Int)
+  deriving Repr
+
+/-- what the model says after an observed event -/
+structure SimObs where
+  id : Nat
+  /-- the event changed the goroutine (a `step` of a goroutine that has returned changes nothing: the
+      lock-free path has one step less than the harness has observation points) -/
+  moved : Bool
+  /-- schedule point after the event (`PC.code`) -/
+  pc : Nat
+  /-- local `end` (the returned deadline when `pc = 4`) and the ghost `tMade` -/
+  e : Int
+  tMade : Int
+  /-- an updater was running right before the step (after the ideal ticks up to `t`) -/
+  wasRunning : Bool
+  /-- the clock after the step -/
+  current : Int
+  clockEnd : Int
+  running : Bool
+  deriving Repr
+
+/-- the simulation keeps the harness identifiers of the goroutines next to the state (`gs[i]` belongs
+    to `ids[i]`; nothing is retired) -/
+def simStep (v : Variant) (p : Params) (st : CState × List Nat) : SimEv → (CState × List Nat) × SimObs
+  | .begin id d t =>
+    let s : CState := { st.1 with clk := advanceTo p st.1.clk t }
+    let obs (moved : Bool) : SimObs :=
+      { id := id, moved := moved, pc := 0, e := 0, tMade := s.clk.now, wasRunning := s.clk.running,
+        current := s.clk.current, clockEnd := s.clk.clockEnd, running := s.clk.running }
+    match step v p s (.begin d) with
+    | some s' => ((s', st.2 ++ [id]), obs true)
+    | none => ((s, st.2), obs false)
+  | .step id t =>
+    let s : CState := { st.1 with clk := advanceTo p st.1.clk t }
+    let obs (moved : Bool) (s' : CState) (i : Nat) : SimObs :=
+      match s'.gs[i]? with
+      | some g =>
+        { id := id, moved := moved, pc := g.pc.code, e := g.e, tMade := g.tMade, wasRunning := s.clk.running,
+          current := s'.clk.current, clockEnd := s'.clk.clockEnd, running := s'.clk.running }
+      | none =>
+        { id := id, moved := false, pc := 9, e := 0, tMade := 0, wasRunning := s.clk.running,
+          current := s'.clk.current, clockEnd := s'.clk.clockEnd, running := s'.clk.running }
+    match st.2.idxOf? id with
+    | none => ((s, st.2), obs false s s.gs.length)
+    | some i =>
+      match step v p s (.stepG i) with
+      | some s' => ((s', st.2), obs true s' i)
+      | none => ((s, st.2), obs false s i)
+
+def simulate (v : Variant) (p : Params) : CState × List Nat → List SimEv → List SimObs
+  | _, [] => []
+  | s, a :: as => let r := simStep v p s a; r.2 :: simulate v p r.1 as
+
+/-- the clock as the harness saw it (`VerifClockState`) right before a schedule, at real time `now`.
+    The time of the updater's last wake-up is not observable: it lies in the tick `current` and within
+    one period before `now`; the earliest such time is taken (the model's next wake-up then comes at
+    most one period after `now`). -/
+def observedClock (p : Params) (current clockEnd : Int) (running started : Bool) (startNs now : Int) : State :=
+  let w := startNs + tickNs * current
+  let w := if w < now then w else now
+  let w := if w < now - p.period then now - p.period else w
+  { current := current, clockEnd := clockEnd, started := started, startNs := if started then startNs else 0,
+    running := running, now := now, lastWrite := if running then w else now, pending := [] }
 
 end RegexVerif.ClockConc
